@@ -42,8 +42,20 @@ func c03Point(t *rapid.T, ev *evProp, gi *GroupInfo) {
 	if !bytes.Equal(enc, twinBytes) {
 		c03Fail(t, ev, gi, "clone-encoding", "P and P.Clone() encode differently: %x vs %x\n%s", enc, twinBytes, ctx)
 	}
-	// 2. round trip
-	Q := g.Point()
+	// 2. round trip - into a fresh receiver or into one that already holds another value (a decoder
+	// that only overwrites some of the receiver's fields works on fresh receivers only)
+	usedRecv := func(label string) kyber.Point {
+		if rapid.Bool().Draw(t, label+".used") {
+			old := genPoint(t, gi, label+".old")
+			if rapid.Bool().Draw(t, label+".projective") {
+				// a result of arithmetic: not in the affine/normalised form a decoder produces
+				return markVT(gi, g.Point().Add(old.P, g.Point().Mul(g.Scalar().SetInt64(3), basePoint(gi))))
+			}
+			return markVT(gi, old.P.Clone())
+		}
+		return g.Point()
+	}
+	Q := usedRecv("Qrecv")
 	if err := Q.UnmarshalBinary(append([]byte(nil), enc...)); err != nil {
 		c03Fail(t, ev, gi, "roundtrip", "UnmarshalBinary(MarshalBinary(P)) failed: %v\n%s enc=%x", err, ctx, enc)
 		return
@@ -70,7 +82,7 @@ func c03Point(t *rapid.T, ev *evProp, gi *GroupInfo) {
 	}
 	trailer := rapid.SliceOfN(rapid.Byte(), 0, 9).Draw(t, "trailer")
 	rd := bytes.NewReader(append(append([]byte(nil), enc...), trailer...))
-	R := g.Point()
+	R := usedRecv("Rrecv")
 	n, err = R.UnmarshalFrom(rd)
 	if err != nil || n != len(enc) || rd.Len() != len(trailer) || !R.Equal(P.P) {
 		c03Fail(t, ev, gi, "UnmarshalFrom", "UnmarshalFrom: n=%d err=%v unread=%d (trailer %d) equal=%v\n%s", n, err, rd.Len(), len(trailer), err == nil && R.Equal(P.P), ctx)
@@ -168,7 +180,13 @@ func c03Scalar(t *rapid.T, ev *evProp, gi *GroupInfo) {
 	if want := bigToBytes(s.V, g.ScalarLen(), le); !bytes.Equal(enc, want) {
 		c03Fail(t, ev, gi, "scalar.canonical", "encoding %x is not the canonical fixed-length encoding %x\n%s", enc, want, ctx)
 	}
-	u := g.Scalar()
+	usedRecv := func(label string) kyber.Scalar {
+		if rapid.Bool().Draw(t, label+".used") {
+			return genScalar(t, gi, label+".old").S.Clone()
+		}
+		return g.Scalar()
+	}
+	u := usedRecv("urecv")
 	if err := u.UnmarshalBinary(append([]byte(nil), enc...)); err != nil {
 		c03Fail(t, ev, gi, "scalar.roundtrip", "UnmarshalBinary failed: %v\n%s", err, ctx)
 		return
@@ -183,7 +201,7 @@ func c03Scalar(t *rapid.T, ev *evProp, gi *GroupInfo) {
 	}
 	trailer := rapid.SliceOfN(rapid.Byte(), 0, 9).Draw(t, "trailer")
 	rd := bytes.NewReader(append(append([]byte(nil), enc...), trailer...))
-	v := g.Scalar()
+	v := usedRecv("vrecv")
 	n, err = v.UnmarshalFrom(rd)
 	if err != nil || n != len(enc) || rd.Len() != len(trailer) || !v.Equal(s.S) {
 		c03Fail(t, ev, gi, "scalar.UnmarshalFrom", "n=%d err=%v unread=%d (trailer %d)\n%s", n, err, rd.Len(), len(trailer), ctx)
